@@ -11,6 +11,97 @@ use crate::runner::Ctx;
 use graphrs::algorithms::shortest_path::dijkstra;
 use std::collections::BTreeSet;
 
+trait Giant: Sized {
+    fn giant(self, seed: u64, idx: u64) -> Self;
+}
+impl Giant for Case {
+    /// one case in 1 500: tens of thousands of nodes (sizes around 2^15.5 and 2^16, a fringe of more than 2^16 entries)
+    fn giant(mut self, seed: u64, idx: u64) -> Case {
+        let mut gr = Rng::new(seed, "config.giant");
+        if gr.chance(1, 1500) {
+            let mut wr = Rng::new(seed, "workload.giant");
+            let (specs, ops) = crate::gen::gen_giant_graph(&mut wr, idx % 2 == 0);
+            self.specs = specs;
+            self.ops = ops;
+            self.params.put("source", crate::core::json::J::s("tens of thousands of nodes"));
+            self.envs = vec![Env { keying: if idx % 4 < 2 { 0 } else { seed | 1 }, pool: 2 + gr.below(15), sched: gr.next_u64() }];
+        }
+        self
+    }
+}
+
+/// graphs too large for the all-pairs table: a few searches against a heap-based single-source oracle, and the
+/// option combinations against each other
+fn giant_check(case: &Case, env: &Env, g: &crate::core::real::G, snap: &crate::core::real::Snap, cx: &mut Ctx) {
+    let n = snap.n();
+    let budget = rt::budget(1000, 1000) + 4_000 * (n + snap.edges.len()) as u64;
+    let adj = snap.adj_min(false);
+    let mut rng = Rng::new(case.seed, "c04.giant");
+    let pos = |x: &str| snap.names.iter().position(|y| y == x);
+    let src0 = pos("g0").unwrap_or(0);
+    let sources = [src0, rng.below(n), rng.below(n)];
+    for &s in &sources {
+        let exp = crate::oracle::dist::sssp_heap(&adj, s);
+        let name = snap.names[s].clone();
+        let far = (0..n).filter(|t| exp[*t].is_finite()).max_by(|a, b| exp[*a].total_cmp(&exp[*b])).unwrap_or(s);
+        let tname = snap.names[far].clone();
+        // (target, first_only, with_paths): the distances-only path, the full algorithm, a target far away with all paths
+        for (t, first_only, with_paths) in [(None, false, false), (None, true, false), (Some(tname.clone()), false, true), (Some(tname.clone()), true, true)] {
+            let label = format!("single_source(target={}, first_only={}, with_paths={})", t.is_some(), first_only, with_paths);
+            let r = rt::call("dijkstra::single_source", budget, || dijkstra::single_source(g, true, name.clone(), t.clone(), None, first_only, with_paths));
+            let got = match r {
+                Ok(Ok(m)) => m,
+                Ok(Err(e)) => {
+                    cx.fail("C04.single_source", "single_source returned Err", format!("{} from {:?} on a valid graph of {} nodes failed: {:?} {}", label, name, n, e.kind, e.message));
+                    return;
+                }
+                Err(p) => {
+                    cx.fail("C04.panic", "single_source panicked", format!("{} from {:?} on {} nodes panicked: {}", label, name, n, p.0));
+                    return;
+                }
+            };
+            cx.count("giant.single_source_calls");
+            if t.is_none() {
+                let reach = exp.iter().filter(|d| d.is_finite()).count();
+                if got.len() != reach {
+                    cx.fail("C04.single_source", "single_source: reported nodes != reachable nodes", format!("{} from {:?}: {} nodes reported, {} reachable ({} nodes)", label, name, got.len(), reach, n));
+                    return;
+                }
+            }
+            let index: std::collections::BTreeMap<&str, usize> = snap.names.iter().enumerate().map(|(i, x)| (x.as_str(), i)).collect();
+            let mut wrong = 0usize;
+            let mut example = String::new();
+            for (k, v) in &got {
+                match index.get(k.as_str()) {
+                    Some(&i) if v.distance == exp[i] => {}
+                    Some(&i) => {
+                        wrong += 1;
+                        if example.is_empty() {
+                            example = format!("{:?}: reported {} but the shortest path length is {}", k, v.distance, exp[i]);
+                        }
+                    }
+                    None => {
+                        cx.fail("C04.single_source", "reported node does not exist", format!("{:?} is reported but is not a node", k));
+                        return;
+                    }
+                }
+            }
+            if wrong > 0 {
+                cx.fail("C04.single_source", "single_source: distance", format!("{} from {:?} on {} nodes (pool {}): {} wrong distances, e.g. {}", label, name, n, env.pool, wrong, example));
+                return;
+            }
+            if let Some(tn) = &t {
+                if exp[far].is_finite() && !got.contains_key(tn) {
+                    cx.fail("C04.single_source", "target reported iff reachable", format!("{} from {:?}: the reachable target {:?} is not reported", label, name, tn));
+                    return;
+                }
+            }
+        }
+    }
+    cx.count("probe.giant_graph");
+    cx.states.push(super::lifecycle::ops_hash(&case.ops[..1]));
+}
+
 pub struct C04Prop;
 pub static C04: C04Prop = C04Prop;
 
@@ -31,7 +122,7 @@ impl Prop for C04Prop {
             large_pct: 25,
             n_small: (0, 10),
             n_large: (21, 60),
-            regimes: vec![WeightRegime::AllNan, WeightRegime::Dyadic, WeightRegime::Dyadic, WeightRegime::SmallInt, WeightRegime::ZeroDyadic, WeightRegime::FineDyadic, WeightRegime::Nasty, WeightRegime::Tiny, WeightRegime::NearEqual, WeightRegime::MixedScale],
+            regimes: vec![WeightRegime::AllNan, WeightRegime::Dyadic, WeightRegime::Dyadic, WeightRegime::SmallInt, WeightRegime::ZeroDyadic, WeightRegime::MostlyOnes, WeightRegime::FineDyadic, WeightRegime::Nasty, WeightRegime::Tiny, WeightRegime::NearEqual, WeightRegime::MixedScale],
             kinds: AlgoGen::all_kinds(),
             shapes: None,
             lifecycle_pct: 30,
@@ -41,6 +132,7 @@ impl Prop for C04Prop {
             hub_one_in: 0,
         }
         .gen("C04", seed, idx)
+        .giant(seed, idx)
     }
     fn run_env(&self, case: &Case, env: &Env, cx: &mut Ctx) {
         let b = match algo::build(case, cx) {
@@ -49,6 +141,10 @@ impl Prop for C04Prop {
         };
         let (g, snap) = (&b.g, &b.snap);
         let n = snap.n();
+        if n > 5000 {
+            giant_check(case, env, g, snap, cx);
+            return;
+        }
         let budget = rt::budget(n, snap.edges.len());
         let mut rng = Rng::new(case.seed, "c04.queries");
         if case.seed % 4 == 0 {
@@ -70,7 +166,9 @@ impl Prop for C04Prop {
             if smax >= 3.0 && positive {
                 cx.count("probe.tie_with_3_or_more_paths");
             }
-            let all_paths_ok = if positive { smax <= PATH_CAP } else { n <= 8 };
+            // all-paths queries need weights whose sums floats can tell apart: when a light edge is absorbed by a long
+            // path it acts as a zero-weight edge, and zero-length cycles have no finite set of shortest paths
+            let all_paths_ok = (if positive { smax <= PATH_CAP } else { n <= 8 }) && (!weighted || algo::comparable_scale(snap));
             let sets = positive && orc.exact;
             let fo = if weighted && positive && !orc.exact && algo::comparable_scale(snap) {
                 cx.count("probe.inexactly_summable_weights");
@@ -244,6 +342,34 @@ impl Prop for C04Prop {
                 }
             }
         }
+        if cx.viol.is_empty() && n >= 2 && n <= 60 && Rng::new(case.seed, "config.wrap").chance(1, 1500) {
+            // counters that wrap: the same search again after exactly 2^8, 2^15, 2^16 (+-1) searches on this thread
+            // the filler searches start at an isolated node added to a copy of the same graph (same size, so no
+            // per-thread table is resized in between; they touch one entry)
+            let mut ops = case.ops.clone();
+            ops.push(Op::AddNode(("~isolated".to_string(), None)));
+            if let Ok(pg) = crate::core::real::build(case.specs, &ops) {
+                let weighted = !snap.edges.is_empty() && snap.weighted() && algo::all_positive(snap) && algo::comparable_scale(snap);
+                let general = case.seed % 4 != 1; // the full algorithm (paths) or the distances-only one
+                let (a, b) = (snap.names[0].clone(), snap.names[n / 2].clone());
+                algo::wrap_probe(
+                    cx,
+                    "C04",
+                    "dijkstra::single_source",
+                    1,
+                    |k| {
+                        let src = if k % 2 == 0 { a.clone() } else { b.clone() };
+                        match rt::call("dijkstra::single_source", budget, || dijkstra::single_source(&pg, weighted, src.clone(), None, None, general, general)) {
+                            Ok(Ok(m)) => Some(algo::sp_bits(&algo::sp_conv(m))),
+                            _ => None,
+                        }
+                    },
+                    || {
+                        let _ = rt::call("dijkstra::single_source(filler)", 1_000_000, || dijkstra::single_source(&pg, weighted, "~isolated".to_string(), None, None, general, general).is_ok());
+                    },
+                );
+            }
+        }
         let unreachable = {
             let o = DistOracle::new(snap, true);
             (0..n).any(|s| (0..n).any(|t| o.d[s][t].is_infinite()))
@@ -257,7 +383,7 @@ impl Prop for C04Prop {
         cx.states.push(super::lifecycle::ops_hash(&case.ops));
     }
     fn rule(&self) -> String {
-        "graphs of all 8 kinds: shapes (G(n,p), paths, cycles, stars, grids, cliques+bridges, layered DAGs with many equal-length paths, unions, trees, bipartite, nested SCCs) with sprinkled self-loops / parallel / reciprocal edges, n <= 10 (75%) or 21-60 (25%), or graphs produced by lifecycle histories; weights hop / dyadic / small int / dyadic with zeros / decimal. single_source from every (or 5 sampled) source x first_only x with_paths, multi_source, all_pairs under a simulated pool of 1-16 workers; oracle: Floyd-Warshall distances, reachable set, path validity, path count = sigma(s,t) and (n <= 9) path set = explicit enumeration. distinct_nontrivial = distinct graphs with a pair having several shortest paths, an unreachable pair, or parallel edges; one case in 1500 is a dense graph (1-3 blocks, 60-300 nodes) with 2 100 - 12 500 stored edges under a pool of 2-16 workers (strategy thresholds); weights also 1 + k 2^-j (j = 35..41: exactly summable, differing in the 11th-13th digit); under inexactly summable positive weights the number of paths per pair must equal the number of shortest paths under the accumulated-float reading or under the 1e-9 reading".into()
+        "graphs of all 8 kinds: shapes (G(n,p), paths, cycles, stars, grids, cliques+bridges, layered DAGs with many equal-length paths, unions, trees, bipartite, nested SCCs) with sprinkled self-loops / parallel / reciprocal edges, n <= 10 (75%) or 21-60 (25%), or graphs produced by lifecycle histories; weights hop / dyadic / small int / dyadic with zeros / decimal. single_source from every (or 5 sampled) source x first_only x with_paths, multi_source, all_pairs under a simulated pool of 1-16 workers; oracle: Floyd-Warshall distances, reachable set, path validity, path count = sigma(s,t) and (n <= 9) path set = explicit enumeration. distinct_nontrivial = distinct graphs with a pair having several shortest paths, an unreachable pair, or parallel edges; one case in 1500 is a dense graph (1-3 blocks, 60-300 nodes) with 2 100 - 12 500 stored edges under a pool of 2-16 workers (strategy thresholds); weights also 1 + k 2^-j (j = 35..41: exactly summable, differing in the 11th-13th digit); under inexactly summable positive weights the number of paths per pair must equal the number of shortest paths under the accumulated-float reading or under the 1e-9 reading; in a third of the cases a battery of valid unjudged calls runs first on a sibling graph (same names and edges, other node order), in a fifth the graph is queried on the same object before its last one to three operations are applied (DESIGN.md 0.2); one case in 1 500 has 47 000 - 70 000 nodes (a source adjacent to every other node, entries improved by 1/256, a chain, two diamonds, isolated nodes; searches with every option combination against a heap-based single-source oracle); one case in 1 500 repeats a search after exactly 255, 256, 32 767, 32 768, 65 535 and 65 536 further searches from an isolated node of the same graph (counter wrap-around); unit weights with a few exceptions".into()
     }
     fn assumptions(&self) -> Vec<String> {
         vec!["path sets are compared exactly under exactly summable strictly positive weights or hop counts; under inexactly summable positive weights: distances at 1e-9 relative, path validity, and the path count per pair must fit the accumulated-float reading or the 1e-9 reading".into(), "all-paths queries are skipped when some pair has more than 3000 shortest paths".into()]
